@@ -34,7 +34,7 @@ macro_rules | `(tactic| shift_congr $n) => do
     `(tactic| first | with_reducible rfl | bv_decide | (with_reducible congr 1 <;> shift_congr $m) | bv_decide)
 
 /-- closes what is left of a round lemma after the generated loop has been unfolded once -/
-macro "shift_round_eq" : tactic => `(tactic| ((try simp only [gen_defs]) <;> shift_congr 6))
+macro "shift_round_eq" : tactic => `(tactic| ((try simp only [gen_defs]) <;> (try simp only [BitVec.mul_comm]) <;> shift_congr 6))
 
 /-! ## `impl Limb`: meanings of the thin word functions -/
 
@@ -49,14 +49,14 @@ theorem limb_shl1_meaning (x : BitVec 64) :
     ((Limb.shl1 x).2.setWidth 128 <<< 64) ||| (Limb.shl1 x).1.setWidth 128 = x.setWidth 128 <<< 1 := by
   constructor
   · shift_round_eq
-  · simp only [gen_defs]; bv_decide
+  · simp only [gen_defs]; (try simp only [BitVec.mul_comm]); bv_decide
 /-- `Limb::shr1`: `(x >> 1, bit 0 moved to the top)` -/
 theorem limb_shr1_meaning (x : BitVec 64) :
     Limb.shr1 x = (x >>> 1, x <<< 63) ∧
     ((Limb.shr1 x).1.setWidth 128 <<< 64) ||| (Limb.shr1 x).2.setWidth 128 = x.setWidth 128 <<< 63 := by
   constructor
   · shift_round_eq
-  · simp only [gen_defs]; bv_decide
+  · simp only [gen_defs]; (try simp only [BitVec.mul_comm]); bv_decide
 theorem limb_bitor_meaning (x y : BitVec 64) : Limb.bitor x y = x ||| y := by
   shift_round_eq
 /-- `Limb::leading_zeros`, `Limb::bits`, `Limb::trailing_zeros`, `Limb::trailing_ones` are the word primitives
